@@ -481,6 +481,16 @@ struct Driver {
                 }
                 return "none";
             }
+            if (op == "clear") {
+                if (m.isLocked()) return "bad-op";
+                m.clear();
+                return "cleared";
+            }
+            if (op == "createin") {
+                uint32_t k = static_cast<uint32_t>(std::stoul(w[1]));
+                if (k >= m.getArchetypesCount()) return "bad-op";
+                return issue(m.create(m.getArchetype(ArchetypeIndex::make(k))));
+            }
             if (op == "update") { m.update(); return "ok"; }
             if (op == "wupdate") { world->update(); return "ok"; }
             if (op == "lock") { m.lock(); ++lock_depth; return "ok"; }
